@@ -19,7 +19,6 @@ func init() {
 var slotExceptions = map[string]string{
 	"SelectStatement.IsRawQuery":        "derived from the fields by the parser, not a clause",
 	"SelectStatement.Fill":              "printed as the fill option keyword chosen by a switch on the option",
-	"SelectStatement.Location":          "printed as TZ('<name>'); the name was validated by time.LoadLocation",
 	"SortField.Name":                    "the parser admits only the name time (parseSortFields rejects any other), so no quoting is needed",
 	"CreateSubscriptionStatement.Mode":  "a keyword (ALL / ANY) stored from the token table",
 	"VarRef.Val":                        "built from the identifier segments by strings.Join and printed through QuoteIdent",
@@ -246,13 +245,15 @@ func slotAgreement(c *Ctx, prop string, which map[string]bool) {
 						bad = "an identifier slot printed as " + qc + " (not through QuoteIdent): a name that needs quotes does not parse back"
 					case stringClasses[pc] && qc != "STRING":
 						bad = "a string slot printed as " + qc + " (not through QuoteString)"
+					case pc == "LOCATION" && qc != "STRING":
+						bad = "the zone name is read from a string literal but written as " + qc + " between hand-placed quotes (not through QuoteString): a name containing a quote ends the literal early"
 					case pc == "DURATION" && qc != "DURATION":
 						bad = "a duration slot printed as " + qc + " (not through FormatDuration)"
 					case (pc == "INT" || pc == "UINT") && qc != "INT" && qc != "UINT":
 						bad = "an integer slot printed as " + qc
 					case pc == "NODE" && qc != "NODE" && !strings.HasPrefix(qc, "CALL:"):
 						bad = "a node slot printed as " + qc
-					case identClasses[pc], stringClasses[pc], pc == "DURATION", pc == "INT", pc == "UINT", pc == "NODE":
+					case identClasses[pc], stringClasses[pc], pc == "DURATION", pc == "INT", pc == "UINT", pc == "NODE", pc == "LOCATION":
 					case qc == "RAW":
 						bad = "a text slot written raw (through no formatter at all): whatever the parser accepted there — a quoted name, a keyword — is printed unquoted"
 					case qc == "RAWVAL" && fieldIsEmptyInterface(pr.T, f) && !floatExcluded(p, str, qe[ei].pos, f):
